@@ -269,6 +269,9 @@ func (r *Run) oneStep() {
 			add(2, r.stepRatchet)
 		}
 	}
+	if r.K.ScanInternal {
+		add(12, r.stepScanInternal)
+	}
 	for _, e := range r.Extra {
 		e := e
 		add(e.Weight, func() { e.F(r) })
